@@ -233,7 +233,10 @@ impl Pattern {
         match self {
             Pattern::Static(s) => {
                 let size = s.len();
-                if bytes.len() >= size && *s == unsafe {bytes.get_unchecked(..size)} {
+                if bytes.len() >= size && *s == unsafe {bytes.get_unchecked(..size)}
+                // a static pattern consists of whole segments: it must end at a segment boundary
+                // of `bytes` ( `/ab` must not take the head of `/abc` )
+                && (bytes.len() == size || *unsafe {bytes.get_unchecked(size)} == b'/') {
                     Some(unsafe {bytes.get_unchecked(size..)})
                 } else {
                     None
